@@ -12,5 +12,6 @@ def main (args : List String) : IO UInt32 := do
   let stdout ← IO.getStdout
   match args with
   | ["pure"] => pureLoop stdin stdout; return 0
+  | ["adder"] => Driver.acceptLoop Driver.adderAcceptor stdin stdout; return 0
   | ["queue"] => Driver.acceptLoop Driver.queueAcceptor stdin stdout; return 0
   | _ => IO.eprintln "usage: garr_model pure|queue|adder|..."; return 2
